@@ -360,6 +360,9 @@ def else_operand(prog: Program, r: RuleResult):
             fl = e.flag.flag if e.flag is not None else None
             if fl == ("const", False):
                 continue
+            # an emission guarded by the truth of the emitted result itself never carries a false flag
+            if any((str(g[2]).endswith(".is_true") and g[1] is True) or (str(g[2]).endswith(".is_false") and g[1] is False) for g in e.guards):
+                continue
             if not (e.bindings.must & left and e.bindings.must & right):
                 bad = bad or (e, fl)
         r.check(bad is None, f"{c.name}#false-means-both-false", c.loc, f"emissions of the union evaluation that {c.name} runs",
